@@ -51,6 +51,43 @@ theorem C19_staticroute_rejects_non_ipv4 (args : List ArgOracle) (a : ArgOracle)
   · rfl
   · rw [allSome_none _ _ a ha hr]
 
+/-- "Arguments that cannot be honoured on the wire are rejected at start-up" (D22): an MTU that does
+not fit the two bytes of option 26 makes mtu's set-up fail. -/
+theorem C19_mtu_rejects_out_of_range (args : List ArgOracle) (a : ArgOracle) (n : Int) (ha : a ∈ args)
+    (hn : a.int = some n) (hbad : n < 0 ∨ 65535 < n) : mtu.setup args = .error () := by
+  cases h : mtu.setup args with
+  | error e => rfl
+  | ok c =>
+    unfold mtu.setup single at h
+    split at h
+    · rename_i a' heq
+      split at heq
+      · cases heq
+        simp only [List.mem_singleton] at ha
+        subst ha
+        rw [hn] at h
+        simp only at h
+        split at h
+        · cases h
+        · cases h <;> omega
+      · cases heq
+    · cases h
+
+/-- (D23) a lease time that is negative or longer than 2^32-1 seconds makes lease_time's set-up fail
+(the first argument counts; further ones are ignored) -/
+theorem C19_leasetime_rejects_out_of_range (a : ArgOracle) (rest : List ArgOracle) (d : Int)
+    (hd : a.dur = some d) (hbad : d < 0 ∨ 4294967295 * 1000000000 < d) : leasetime.setup (a :: rest) = .error () := by
+  unfold leasetime.setup
+  simp only [hd]
+  rw [if_pos (by omega)]
+
+/-- (D24) a V6ONLY_WAIT that is negative or longer than 2^32-1 seconds makes ipv6only's set-up fail -/
+theorem C19_ipv6only_rejects_out_of_range (a : ArgOracle) (rest : List ArgOracle) (d : Int)
+    (hd : a.dur = some d) (hbad : d < 0 ∨ 4294967295 * 1000000000 < d) : ipv6only.setup (a :: rest) = .error () := by
+  unfold ipv6only.setup
+  simp only [hd]
+  rw [if_pos (by omega)]
+
 /-- RFC 3442 routes satisfying `wireOK` decode (dhcpv4 `Routes.FromBytes`) to themselves -/
 theorem C19_routes_roundtrip (rs : List Route) (h : rs.all C19.routeOK = true) :
     decodeRoutes (encRoutes rs) = some rs := decRoutes_enc rs h _ (Nat.le_refl _)
